@@ -1,7 +1,6 @@
 package props
 
 import (
-	"unsafe"
 	"bufio"
 	"encoding/json"
 	"fmt"
@@ -14,6 +13,7 @@ import (
 	"strings"
 	"sync"
 	"time"
+	"unsafe"
 
 	"gitee.com/xuesongtao/protoc-go-valid/valid"
 	"vmon/internal/clause"
@@ -36,7 +36,7 @@ type c08Call struct {
 	Hot   int // index of the hot type, -1 for a cold filler
 	Cold  int // index of the cold filler type
 	Val   int // which of the pre-generated values of the type
-	Entry int // 0 ValidateStruct(tag) 1 StructForFn(rm, tag) 2 Struct(rm) 3 Struct() 4 StructForFns(nil, fns, tag)
+	Entry int // 0 ValidateStruct(tag) 1 StructForFn(rm, tag) 2 Struct(rm) 3 Struct() 4 StructForFns(nil, fns, tag) 5 GetDumpStructStr(v) (another reader of the type cache; its text is not compared)
 	Tag   string
 	RM    map[string]string
 	Fns   []string // names of per-call functions (Entry 4: StructForFns); each reports a marker naming the call
@@ -251,7 +251,19 @@ func c08Build(rng *rand.Rand, nHot, nCold, rounds, hotBlock int) *c08Hist {
 	for r := 0; r < rounds; r++ {
 		for k := 0; k < hotBlock; k++ {
 			ti := rng.Intn(nHot)
-			switch rng.Intn(5) {
+			switch rng.Intn(6) {
+			case 5: // the struct dumper looks at the type first (it may be the first to meet it, or the first after an eviction), then the validator
+				c1 := hotCall(ti)
+				c1.Entry, c1.RM, c1.Tag = 5, nil, "valid"
+				c2 := c1
+				c2.Entry = []int{0, 3}[rng.Intn(2)]
+				if rng.Intn(3) == 0 {
+					c2.Tag = tagsOf(ti)[rng.Intn(len(tagsOf(ti)))]
+					c2.Entry = 0
+				}
+				add(c1)
+				add(c2)
+				k++
 			case 0: // A-then-B on the same type
 				c1 := hotCall(ti)
 				c1.Entry, c1.Tag, c1.RM = 0, tagsOf(ti)[rng.Intn(len(tagsOf(ti)))], nil
@@ -386,6 +398,8 @@ func (h *c08Hist) exec(c c08Call) drive.Out {
 		}
 	}
 	switch c.Entry {
+	case 5:
+		return drive.Call(func() error { _ = valid.GetDumpStructStr(in); return nil })
 	case 0:
 		return drive.Call(func() error { return valid.ValidateStruct(in, c.Tag) })
 	case 1:
@@ -403,7 +417,7 @@ func (h *c08Hist) exec(c c08Call) drive.Out {
 }
 
 func (c c08Call) describe() string {
-	e := []string{"ValidateStruct(v,%q)", "StructForFn(v,rm,%q)", "Struct(v,rm) [tag %q]", "Struct(v) [tag %q]", "StructForFns(v,nil,fns,%q)"}[c.Entry]
+	e := []string{"ValidateStruct(v,%q)", "StructForFn(v,rm,%q)", "Struct(v,rm) [tag %q]", "Struct(v) [tag %q]", "StructForFns(v,nil,fns,%q)", "GetDumpStructStr(v) [then tag %q]"}[c.Entry]
 	s := fmt.Sprintf(e, c.Tag)
 	if c.Hot >= 0 {
 		s += fmt.Sprintf(" hot-type#%d value#%d", c.Hot, c.Val)
@@ -601,7 +615,7 @@ func parentC08(p *core.ParentCtx) *core.Result {
 		// one the reference expects under ANOTHER tag name (and not under the requested one), all
 		// configurations are equally wrong — invisible to the relational comparison above.
 		for pos, call := range h.Calls {
-			if call.Hot < 0 || strings.HasPrefix(base[pos], "PANIC") {
+			if call.Hot < 0 || call.Entry == 5 || strings.HasPrefix(base[pos], "PANIC") {
 				continue
 			}
 			raw, okRaw := rawBase[call.ID]
